@@ -36,8 +36,9 @@ func (ids idSet) keys() []uint16 {
 }
 
 type msgAndIdSet struct {
-	m     Message
-	idSet idSet
+	m         Message
+	idSet     idSet
+	delivered bool
 }
 
 type Backend func(msg interface{}, from uint16)
@@ -159,7 +160,8 @@ func (r *Receiver) registerMsg(ack msgReception, from uint16, msg Message) {
 		r.reception[ack].m = msg
 	}
 
-	if len(r.reception[ack].idSet) == r.N-1 {
+	if len(r.reception[ack].idSet) == r.N-1 && r.reception[ack].m != nil && !r.reception[ack].delivered {
+		r.reception[ack].delivered = true
 		r.Logger.Debugf("Collected enough acknowledgements (from %v) on {sender: %d, digest: %s, round: %d}",
 			r.reception[ack].idSet, ack.sender, hex.EncodeToString([]byte(ack.digest[:8])), ack.msgRound)
 		r.ForwardToBackend(r.reception[ack].m, ack.sender)
